@@ -48,6 +48,7 @@ CliVerdict(e) ==
    ELSE IF Normalize(e.argv) # e.args THEN "harness-normalisation-disagrees-with-CmdLine"
    ELSE IF e.rc # 0 THEN "exit-status-" \o ToString(e.rc)
    ELSE IF e.traceback THEN "traceback"
+   ELSE IF e.closed = "stdout" THEN "ok"                     \* started with standard output closed: nothing can be printed, status and traceback are judged
    ELSE LET res == {Matches(e, b) : b \in Selected(fl)} IN
         IF "ok" \in res THEN "ok" ELSE CHOOSE x \in res : TRUE
 Inv == ph = 0 \/ LET v == CliVerdict(T[i]) IN v = "ok" \/ PrintT("FAIL " \o ToString(i) \o " " \o v)
